@@ -193,4 +193,103 @@ theorem setGroup_stores (m m' : Message) (gtag d : Tag) (ts : List Tag) (hts : (
   simp only [Message.withSec, Message.sec, FieldMap.setGroup]
   exact alFind_insert_self _ _ _
 
+
+/-- THE TRIP THROUGH THE WIRE FOR ANY GROUP FIELD (no dictionary): whatever TagValues `count :: M` the body holds under a
+    body tag `gtag` that no other TagValue of the message carries — after `build` and `ParseMessage` the parsed body maps
+    `gtag` to a field whose full extent is `count :: M ++ Z`, where every TagValue of `Z` is the CheckSum or comes from
+    another field of the message -/
+theorem trip_nodict_group_field (fx : Fixes) (m : Message) (hb : Built m) (hw : Wired m) (tv8 : TagValue) (f35 : Field)
+    (h8 : alFind m.header.lookup 8 = some (.owned [tv8])) (h35 : alFind m.header.lookup 35 = some f35)
+    (gtag : Tag) (g0 : TagValue) (M : List TagValue)
+    (hg : alFind m.body.lookup gtag = some (.owned (g0 :: M))) (hg0 : g0.tag = gtag) (gbody : secND gtag = .b)
+    (hMg : ∀ tv ∈ M, tv.tag ≠ gtag)
+    (others : ∀ s k l, alFind (m.sec s).lookup k = some (.owned l) → ¬ (s = .b ∧ k = gtag) → ∀ tv ∈ l, tv.tag ≠ gtag)
+    (bytes : Bytes) (m' : Message) (h : m.build Fixes.cur = .ok (bytes, m')) (hsmall : bytes.length < 9223372036854775808) :
+    ∃ (p : Message) (f : Field) (Z : List TagValue),
+      parseMessage fx Dicts.none bytes = .ok p ∧ alFind p.body.lookup gtag = some f ∧
+      f.full p.fields = g0 :: (M ++ Z) ∧
+      ∀ tv ∈ Z, tv.tag = 10 ∨ ∃ s k l, alFind (m.sec s).lookup k = some (.owned l) ∧ ¬ (s = .b ∧ k = gtag) ∧ tv ∈ l := by
+  obtain ⟨t9, t35, restH, frontT, t10, hbytes, hwm, hbl, provH, provT, _⟩ := build_wire' m hb hw tv8 f35 h8 h35 bytes m' h hsmall
+  obtain ⟨a, b, hna, hnb, hsplit⟩ := tvs_split hb.inv.b m.fields gtag _ hg
+  let preB := (a.filterMap (alFind m.body.lookup)).flatMap (Field.items m.fields)
+  let postB := (b.filterMap (alFind m.body.lookup)).flatMap (Field.items m.fields)
+  have hBt : m.body.tvs m.fields = preB ++ (g0 :: M) ++ postB := hsplit
+  -- provenance of TagValues outside the group field
+  have prov : ∀ (s : Sec) (k : Tag) (f : Field), alFind (m.sec s).lookup k = some f → ∀ tv ∈ f.items m.fields,
+      ∃ l, alFind (m.sec s).lookup k = some (.owned l) ∧ tv ∈ l := by
+    intro s k f hf tv htv
+    obtain ⟨l, hl⟩ := hb.secOwned s k f hf
+    subst hl
+    exact ⟨l, hf, htv⟩
+  have hsegB : ∀ (ks : List Tag), gtag ∉ ks → ∀ tv ∈ (ks.filterMap (alFind m.body.lookup)).flatMap (Field.items m.fields),
+      ∃ s k l, alFind (m.sec s).lookup k = some (.owned l) ∧ ¬ (s = .b ∧ k = gtag) ∧ tv ∈ l := by
+    intro ks hks
+    apply tvs_of_tags m.fields m.body.lookup ks
+      (fun tv => ∃ s k l, alFind (m.sec s).lookup k = some (.owned l) ∧ ¬ (s = .b ∧ k = gtag) ∧ tv ∈ l)
+    intro t ht f hf tv htv
+    obtain ⟨l, hl, hm⟩ := prov .b t f hf tv htv
+    exact ⟨.b, t, l, hl, (fun hc => hks (hc.2 ▸ ht)), hm⟩
+  have hH : ∀ tv ∈ t35 :: restH, ∃ s k l, alFind (m.sec s).lookup k = some (.owned l) ∧ ¬ (s = .b ∧ k = gtag) ∧ tv ∈ l := by
+    intro tv htv
+    obtain ⟨k, f, hf, hm⟩ := provH tv htv
+    obtain ⟨l, hl, hml⟩ := prov .h k f hf tv hm
+    exact ⟨.h, k, l, hl, (fun hc => by cases hc.1), hml⟩
+  have hT : ∀ tv ∈ frontT, ∃ s k l, alFind (m.sec s).lookup k = some (.owned l) ∧ ¬ (s = .b ∧ k = gtag) ∧ tv ∈ l := by
+    intro tv htv
+    obtain ⟨k, f, hf, hm, _⟩ := provT tv htv
+    obtain ⟨l, hl, hml⟩ := prov .t k f hf tv hm
+    exact ⟨.t, k, l, hl, (fun hc => by cases hc.1), hml⟩
+  have tagOf : ∀ tv, (∃ s k l, alFind (m.sec s).lookup k = some (.owned l) ∧ ¬ (s = .b ∧ k = gtag) ∧ tv ∈ l) → tv.tag ≠ gtag := by
+    intro tv ⟨s, k, l, hl, hne, hm⟩; exact others s k l hl hne tv hm
+  have g8 : tv8.tag ≠ gtag := others .h 8 _ h8 (fun hc => by cases hc.1) tv8 (by simp)
+  have gns : gtag ≠ 9 ∧ gtag ≠ 10 := by
+    constructor
+    · intro e; rw [e] at gbody; exact absurd gbody (by decide)
+    · intro e; rw [e] at gbody; exact absurd gbody (by decide)
+  let A := tv8 :: t9 :: t35 :: (restH ++ preB)
+  let Z := postB ++ frontT ++ [t10]
+  have hL : tv8 :: t9 :: t35 :: ((restH ++ m.body.tvs m.fields ++ frontT) ++ [t10]) = A ++ g0 :: (M ++ Z) := by
+    rw [hBt]; simp [A, Z, List.append_assoc]
+  have hA : ∀ tv ∈ A, tv.tag ≠ gtag := by
+    intro tv htv
+    simp only [A, List.mem_cons, List.mem_append] at htv
+    rcases htv with e | e | e | e | e
+    · subst e; exact g8
+    · subst e; rw [hwm.tag9]; exact fun e => gns.1 e.symm
+    · subst e; exact tagOf tv (hH tv (by simp))
+    · exact tagOf tv (hH tv (by simp [e]))
+    · exact tagOf tv (hsegB a hna tv e)
+  have hZ : ∀ tv ∈ Z, tv.tag = 10 ∨ ∃ s k l, alFind (m.sec s).lookup k = some (.owned l) ∧ ¬ (s = .b ∧ k = gtag) ∧ tv ∈ l := by
+    intro tv htv
+    simp only [Z, List.mem_append, List.mem_singleton] at htv
+    rcases htv with (e | e) | e
+    · exact Or.inr (hsegB b hnb tv e)
+    · exact Or.inr (hT tv e)
+    · subst e; exact Or.inl hwm.tag10
+  have hZg : ∀ tv ∈ Z, tv.tag ≠ gtag := by
+    intro tv htv
+    rcases hZ tv htv with e | e
+    · rw [e]; exact fun e' => gns.2 e'.symm
+    · exact tagOf tv e
+  have hparse := parse_wire_nodict fx tv8 t9 t35 _ t10 hwm hbl
+  rw [← hbytes] at hparse
+  have hj : (tv8 :: t9 :: t35 :: ((restH ++ m.body.tvs m.fields ++ frontT) ++ [t10]))[A.length]? = some g0 := by
+    rw [hL, List.getElem?_append_right (Nat.le_refl _)]; simp
+  have huniq : ∀ j' tv', (tv8 :: t9 :: t35 :: ((restH ++ m.body.tvs m.fields ++ frontT) ++ [t10]))[j']? = some tv' → j' ≠ A.length →
+      tv'.tag ≠ g0.tag := by
+    intro j' tv' hj' hne
+    rw [hL] at hj'
+    rw [hg0]
+    rcases getElem?_append_cons_ne A (M ++ Z) _ tv' j' hj' hne with hm | hm
+    · exact hA tv' hm
+    · rcases List.mem_append.1 hm with hm | hm
+      · exact hMg tv' hm
+      · exact hZg tv' hm
+  have hfind := ndFinal_find tv8 t9 t35 _ t10 hwm A.length g0 hj huniq
+  rw [hg0, gbody] at hfind
+  refine ⟨_, .view A.length 1, Z, hparse, hfind, ?_, hZ⟩
+  show (Field.view A.length 1).full (tv8 :: t9 :: t35 :: ((restH ++ m.body.tvs m.fields ++ frontT) ++ [t10])) = _
+  rw [hL]; simp [Field.full]
+
+
 end Qfx
